@@ -11,7 +11,7 @@ RULE = ('Evaluation = one call of the real icao.significant_cloud on one okta se
         'pipeline on generated scenes (contract attached with icontract). Non-trivial = length >= 2; distinct by '
         'construction (enumeration) resp. hash.')
 ASSUMPTIONS = ['okta values are the integers 0..8']
-REQUIRED = ['exhaustive_tree', 'random_long', 'in_situ', 'repeat_after_caller_edit', 'numpy_integer_types', 'debug_logging']
+REQUIRED = ['exhaustive_tree', 'random_long', 'in_situ', 'repeat_after_caller_edit', 'numpy_integer_types', 'other_containers_and_iterators', 'debug_logging']
 LMAX = {'quick': 7, 'thorough': 8}
 EXHAUSTIVE = {'quick': 'all okta sequences over 0..8 of length 1..7 (5 380 839 sequences)',
               'thorough': 'all okta sequences over 0..8 of length 1..8 (48 427 560 sequences)'}
@@ -25,6 +25,7 @@ def plan(tier, seed):
             out.append({'fam': 'tree', 'root': [a, b], 'L': LMAX[tier], 's': seed, 'i': a * 9 + b})
     out.append({'fam': 'short', 's': seed, 'i': 100})
     out.append({'fam': 'short', 's': seed, 'i': 101, 'debuglog': True})
+    out.append({'fam': 'short', 's': seed, 'i': 102, 'pyopt': True})          # once more under python -O
     for j in range(4 if tier == 'quick' else 32):
         out.append({'fam': 'random', 'n': 1500, 's': seed, 'i': 200 + j})
     for j in range(8 if tier == 'quick' else 64):
@@ -142,6 +143,19 @@ def check(desc):
                             oracles.V(viol, 'C17', 'result depends on an earlier call that failed on invalid input', oktas=seq,
                                       failed_input=repr(bad), got=[bool(x) for x in g4] if isinstance(g4, list) else repr(g4)[:60],
                                       expected=fold(seq))
+                if L <= 3 or seq[0] in (0, 6):
+                    # the same oktas in other containers (a sequence is a sequence: tuple, array, Series, deque,
+                    # one-shot iterators such as generators / map / iter)
+                    import collections
+                    import pandas as pd
+                    for shape, mk in (('tuple', tuple), ('ndarray', np.array), ('Series', pd.Series), ('deque', collections.deque),
+                                      ('generator', lambda q: (v for v in q)), ('iter', iter), ('map', lambda q: map(int, q)),
+                                      ('reversed', lambda q: reversed(q[::-1]))):
+                        g5 = f(mk(list(seq)))
+                        n += 1
+                        if not _judge(seq, g5, None, []) and len(viol) < 20:
+                            oracles.V(viol, 'C17', 'flags depend on the container the oktas come in', container=shape, oktas=seq,
+                                      got=[bool(x) for x in g5] if isinstance(g5, list) else repr(g5)[:60], expected=fold(seq))
                 if L <= 3 or seq[0] in (1, 8):
                     for dt in (np.uint8, np.int8, np.uint16, np.int64, np.uint64):
                         arr = [dt(v) for v in seq]
@@ -162,7 +176,7 @@ def check(desc):
         if g != []:
             oracles.V(viol, 'C17', 'empty sequence', got=repr(g))
         n += 1
-        return {'evals': n, 'nontrivial_n': n - 10, 'nontrivial': [], 'tags': ['length_0_1', 'repeat_after_caller_edit', 'numpy_integer_types', 'debug_logging'],
+        return {'evals': n, 'nontrivial_n': n - 10, 'nontrivial': [], 'tags': ['length_0_1', 'repeat_after_caller_edit', 'numpy_integer_types', 'other_containers_and_iterators', 'debug_logging'],
                 'viol': viol[:20], 'counters': {'short_sequence_calls': n}}
     if desc['fam'] == 'random':
         rng = scenes.rng_for(desc['s'], NUM, desc['i'])
